@@ -35,7 +35,7 @@ inline void mutate_structured(Chooser& ch, std::vector<fits::HDU>& hs, MutLog& l
   using namespace fits;
   if (hs.empty()) return;
   size_t nd = hs[0].naxes.size();
-  int kind = (int)ch.draw(0, 21);
+  int kind = (int)ch.draw(0, 23);
   auto dimpick = [&]() { return nd ? (size_t)ch.draw(0, nd - 1) : 0; };
   switch (kind) {
     case 0: {  // ORDERn odd value
@@ -108,6 +108,27 @@ inline void mutate_structured(Chooser& ch, std::vector<fits::HDU>& hs, MutLog& l
       hs[0].naxes.clear(); hs[0].data.clear(); log.add("primary NAXIS=0"); break; }
     case 20: {  // many aux-like cards incl. odd ones
       int n = 1 + (int)ch.draw(0, 40); for (int i = 0; i < n; i++) { Card c = scard("K" + std::to_string(i), std::string(ch.draw(0, 68), 'v')); hs[0].cards.push_back(c); } log.add("add " + std::to_string(n) + " aux cards"); break; }
+    case 22: case 23: {  // self-consistent table at (or just below) the boundary of validity: knots AND image axis changed together
+      if (!nd || hs.size() < 1 + nd) break;
+      size_t d = dimpick();
+      Card* oc = find_card(hs[0], "ORDER" + std::to_string(d)); if (!oc) break;
+      long o = atol(oc->value.c_str()); if (o < 0 || o > 20) break;
+      // the knot HDU of dimension d
+      fits::HDU* kh = nullptr; for (auto& h : hs) { Card* c = find_card(h, "EXTNAME"); if (c && c->value == "KNOTS" + std::to_string(d)) kh = &h; }
+      if (!kh) break;
+      static const int delta[] = {1, 0, -1, 2};   // target nknots = 2*o + delta  (2o+2 is the smallest valid count)
+      long nk = kind == 22 ? 2 * o + delta[ch.draw(0, 3)] : o + 2 + (long)ch.draw(0, 1);
+      if (nk < 1) nk = 1;
+      auto v = get_knot_data(*kh);
+      while ((long)v.size() < nk) v.push_back(v.empty() ? 0.0 : v.back() + 1.0);
+      v.resize((size_t)nk);
+      set_knot_data(*kh, v);
+      long nax = std::max<long>(0, nk - o - 1);
+      hs[0].naxes[nd - 1 - d] = nax;             // image axes are stored reversed
+      size_t n = 1; for (long x : hs[0].naxes) n *= (size_t)std::max<long>(0, x); if (n > 200000) n = 200000;
+      hs[0].data.clear(); for (size_t i = 0; i < n; i++) fits::put_f32(hs[0].data, 1.0f + (float)(i % 7));
+      log.add("consistent dimension " + std::to_string(d) + ": order " + std::to_string(o) + ", " + std::to_string(nk) + " knots, " + std::to_string(nax) + " coefficients");
+      break; }
     default: {  // raw card text (quotes unbalanced etc.)
       Card c; c.kind = 'X'; static const char* raws[] = {"AUX1    = 'unterminated", "AUX2    = ''''''''", "HIERARCH   = 'x'", "AUX3    =", "        = 'blank key'", "AUX4    = 'a''b''''c'", "ORDER0  = 'two'"};
       c.value = raws[ch.draw(0, 6)]; hs[0].cards.push_back(c); log.add(std::string("raw card ") + c.value); break; }
